@@ -476,10 +476,55 @@ fn step_event(hid: u64, k: usize, name: &str, prev: &Zoned, pzi: i64, cur: &Resu
 
 /// one random operation on a Zoned; returns (name, result, stays in the same zone slot?, keeps instant?)
 fn random_op(rng: &mut Rng, z: &Zoned, other: &TimeZone) -> (String, Result<Result<Zoned, jiff::Error>, String>, bool, bool) {
+    let code = rng.next() % 20;
+    op_by_code(code, rng, z, other)
+}
+
+/// One operation of the alphabet of spec/ZonedOps.tla; the magnitudes are drawn here.
+/// Returns (name, result, stays in the same zone, must keep the instant).
+fn op_by_code(code: u64, rng: &mut Rng, z: &Zoned, other: &TimeZone) -> (String, Result<Result<Zoned, jiff::Error>, String>, bool, bool) {
     let all: Vec<usize> = (0..10).collect();
-    match rng.next() % 16 {
-        0 => {
+    match code {
+        16 => {
+            let d = match rng.next() % 4 {
+                0 => SignedDuration::new(rng.range(-200_000, 200_000), rng.range(0, 999_999_999) as i32 * if rng.chance(1, 2) { 1 } else { 0 }),
+                1 => SignedDuration::from_hours(rng.range(-30, 30)),
+                2 => SignedDuration::new(rng.range(-4_000_000_000, 4_000_000_000), 0),
+                _ => *rng.pick(&[SignedDuration::MAX, SignedDuration::MIN, SignedDuration::ZERO, SignedDuration::new(0, 1), SignedDuration::new(0, -1)]),
+            };
+            let d = if d.as_secs() < 0 && d.subsec_nanos() > 0 { -d } else { d };
+            (format!("checked_add({d:?})"), guard(|| z.checked_add(d)), true, false)
+        }
+        17 => {
             let s = gen_span(rng, &all);
+            if rng.chance(1, 2) {
+                (format!("saturating_add({s:?})"), guard(|| Ok(z.saturating_add(s))), true, false)
+            } else {
+                (format!("saturating_sub({s:?})"), guard(|| Ok(z.saturating_sub(s))), true, false)
+            }
+        }
+        18 => {
+            // re-resolve the civil time with an explicit offset: the zone's own, a shifted one, an extreme one
+            let off = match rng.next() % 3 {
+                0 => z.offset(),
+                1 => jiff::tz::Offset::from_seconds((z.offset().seconds() + *rng.pick(&[3600i32, -3600, 1800, 1])).clamp(-93599, 93599)).unwrap(),
+                _ => *rng.pick(&[jiff::tz::Offset::MIN, jiff::tz::Offset::MAX, jiff::tz::Offset::UTC]),
+            };
+            let oc = *rng.pick(&[jiff::tz::OffsetConflict::AlwaysTimeZone, jiff::tz::OffsetConflict::PreferOffset, jiff::tz::OffsetConflict::Reject]);
+            (format!("with().offset({off}).offset_conflict({oc:?})"), guard(|| z.with().offset(off).offset_conflict(oc).build()), true, false)
+        }
+        19 => {
+            let fmt = "%Y-%m-%dT%H:%M:%S%.f%:z[%Q]";
+            ("strftime->strptime".into(), guard(|| jiff::fmt::strtime::format(fmt, z).and_then(|t| Zoned::strptime(fmt, t))), true, false)
+        }
+        _ => op_by_code_base(code, rng, z, other, &all),
+    }
+}
+
+fn op_by_code_base(code: u64, rng: &mut Rng, z: &Zoned, other: &TimeZone, all: &[usize]) -> (String, Result<Result<Zoned, jiff::Error>, String>, bool, bool) {
+    match code {
+        0 => {
+            let s = gen_span(rng, all);
             (format!("checked_add({s:?})"), guard(|| z.checked_add(s)), true, false)
         }
         1 => {
@@ -664,7 +709,35 @@ pub fn run_zoned(a: &Args, which: &str) {
                 }
             }
             _ => {
-                // c13: operation histories
+                // c13: operation histories.  First the TLC-generated ones (spec/ZonedOps.tla): every history of
+                // the alphabet up to the model's bound, each from instants around this zone's transitions
+                if let Some(pf) = a.opt("plans") {
+                    let plans: Vec<Vec<u64>> = serde_json::from_str::<Value>(&std::fs::read_to_string(pf).unwrap()).unwrap().as_array().unwrap().iter()
+                        .map(|p| p.as_array().unwrap().iter().map(|x| x.as_u64().unwrap()).collect()).collect();
+                    let per_zone = if quick { 40 } else { plans.len() };
+                    for j in 0..per_zone.min(plans.len()) {
+                        // every zone gets a different slice of the plans; all zones together cover all of them several times
+                        let plan = &plans[(zi * per_zone + j) % plans.len()];
+                        let (ts, _) = insts[(j * 5 + zi) % insts.len()];
+                        let mut cur = Zoned::new(ts, tz.clone());
+                        let mut slot = 1i64;
+                        let hid = (1u64 << 40) | (zi as u64) << 20 | j as u64;
+                        out.emit(step_event(hid, 0, "Zoned::new", &cur.clone(), 1, &Ok(Ok(cur.clone())), 1, false));
+                        for (k, &code) in plan.iter().enumerate() {
+                            let other = if slot == 1 { tz2 } else { tz };
+                            if (code == 13 || code == 19) && cur.time_zone().iana_name().is_none() {
+                                continue;
+                            }
+                            let (name, res, same_zone, keep) = op_by_code(code, &mut rng, &cur, other);
+                            let nslot = if same_zone { slot } else { 3 - slot };
+                            out.emit(step_event(hid, k + 1, &name, &cur, slot, &res, nslot, keep));
+                            if let Ok(Ok(n)) = res {
+                                cur = n;
+                                slot = nslot;
+                            }
+                        }
+                    }
+                }
                 let nh = if quick { 14 } else { 200 };
                 for h in 0..nh {
                     let (ts, _) = insts[(h * 3) % insts.len()];
@@ -675,7 +748,7 @@ pub fn run_zoned(a: &Args, which: &str) {
                     for k in 1..=(if quick { 8 } else { 12 }) {
                         let other = if slot == 1 { tz2 } else { tz };
                         let (name, res, same_zone, keep) = random_op(&mut rng, &cur, other);
-                        if name == "display->parse" && cur.time_zone().iana_name().is_none() {
+                        if (name == "display->parse" || name == "strftime->strptime") && cur.time_zone().iana_name().is_none() {
                             continue;
                         }
                         let nslot = if same_zone { slot } else { 3 - slot };
